@@ -13,7 +13,10 @@ This module only joins the two halves; it states nothing itself.
                 LLBuild.Props.C17Lex   — theorems `LLBuild.NinjaLexer.C17_*`, `LLBuild.ShellEscape.C17_sh_roundtrip`
   semantic half (scoping, lazy rule variables, $in/$out quoting, include / subninja, evalString):
                 LLBuild.Props.C17Load  — theorems `LLBuild.NinjaLoader.C17_*`
-The check `vlib/props/c17.py` audits the C17 theorems of both modules.
+  the parser in between (what a well-formed statement hands to the loader, where keywords count, the pure-Lean
+                pipeline bytes → lexer → parser → loader): LLBuild.Props.C17Parse — theorems `LLBuild.NinjaParser.C17_*`
+The check `vlib/props/c17.py` audits the C17 theorems of these modules.
 -/
 import LLBuild.Props.C17Lex
 import LLBuild.Props.C17Load
+import LLBuild.Props.C17Parse
